@@ -135,3 +135,64 @@ pub fn hms(secs: i64) -> String {
 pub fn tz_string(r: &RuleSpec) -> String {
     format!("AAA{}BBB{},{}/{},{}/{}", hms(-r.std_off), hms(-r.dst_off), r.start.text(), hms(r.start_time), r.end.text(), hms(r.end_time))
 }
+
+/// day times at numeric thresholds: +-(2^k - 1, 2^k, 2^k + 1), whole hours around the 24 h / 48 h / 7 d marks
+pub fn grid_times() -> Vec<i64> {
+    let mut ts: Vec<i64> = vec![0];
+    for k in 0..=19 {
+        for e in [-1i64, 0, 1] {
+            let v = (1i64 << k) + e;
+            ts.push(v);
+            ts.push(-v);
+        }
+    }
+    for h in [1i64, 2, 3, 12, 23, 24, 25, 26, 47, 48, 49, 72, 100, 143, 144, 145, 166, 167] {
+        ts.push(h * H);
+        ts.push(-h * H);
+        ts.push(h * H + 1799);
+        ts.push(-h * H - 1);
+    }
+    ts.push(7 * D - 1);
+    ts.push(-7 * D + 1);
+    ts.retain(|v| v.abs() < 7 * D);
+    ts.sort();
+    ts.dedup();
+    ts
+}
+
+/// UTC offsets at numeric thresholds inside the accepted window (-25 h, +26 h)
+pub fn grid_offsets() -> Vec<i64> {
+    let mut os: Vec<i64> = vec![0];
+    for k in 0..=16 {
+        for e in [-1i64, 0, 1] {
+            let v = (1i64 << k) + e;
+            os.push(v);
+            os.push(-v);
+        }
+    }
+    for h in [1i64, 2, 5, 9, 10, 12, 13, 14, 18, 19, 23, 24, 25] {
+        os.push(h * H);
+        os.push(-h * H);
+        os.push(h * H + 1800);
+        os.push(-h * H - 2700);
+    }
+    os.push(26 * H - 1);
+    os.push(-25 * H + 1);
+    os.retain(|&v| v > -25 * H && v < 26 * H);
+    os.sort();
+    os.dedup();
+    os
+}
+
+pub fn grid_day_pairs() -> [(Day, Day); 8] {
+    [
+        (Day::M(3, 2, 0), Day::M(11, 1, 0)),
+        (Day::M(10, 5, 0), Day::M(3, 5, 0)),
+        (Day::J(60), Day::J(300)),
+        (Day::Z(300), Day::Z(59)),
+        (Day::J(1), Day::J(365)),
+        (Day::M(12, 5, 6), Day::M(1, 1, 0)),
+        (Day::Z(0), Day::Z(365)),
+        (Day::M(2, 5, 1), Day::M(9, 1, 3)),
+    ]
+}
